@@ -54,7 +54,7 @@ def handle : Handler := fun j => do
   let items := scan dirs
   let st := refresh items
   match op with
-  | "refresh" =>
+  | "refresh" | "permrestore" =>
     let oDevices ← getStrList obs "devices"
     let oVendors ← getStrList obs "vendors"
     let oClasses ← getStrList obs "classes"
